@@ -157,3 +157,15 @@ package eds
 //@   ensures err == nil ==> !result0.IsParity && len(result0.Shares) == edsWidth(eds.ExtendedDataSquare) / 2
 //@   ensures err == nil && axisType == 0 ==> forall i int :: 0 <= i && i < len(result0.Shares) ==> result0.Shares[i] == cellShare(eds.ExtendedDataSquare, axisIdx, i)
 //@   ensures err == nil && axisType == 1 ==> forall i int :: 0 <= i && i < len(result0.Shares) ==> result0.Shares[i] == cellShare(eds.ExtendedDataSquare, i, axisIdx)
+
+// ---------------------------------------------------------------------------------------------
+// C06: a streamed square is accepted only when the data hash recomputed from it equals the hash of the
+// roots it was requested for. $EDSVerified is the event "ReadAccessor accepted".
+// (dahHash and the contract of DataAvailabilityHeader.Hash: see header/zz_contracts_verif.go)
+//@ func ReadAccessor
+//@   property C06 C05
+//@   noframe
+//@   requires root != nil
+//@   effect $EDSVerified := err == nil
+//@   checks err == nil ==> bytesEq(datahash, dahHash(deref(root))) && result0 == rsmt2d
+//@   ensures err != nil ==> result0 == nil
